@@ -1,6 +1,7 @@
 package zzvrt
 
 import (
+	"errors"
 	"io"
 	"io/fs"
 	"os"
@@ -16,6 +17,7 @@ import (
 // virtual clock). Every call is a scheduling point and is logged for the oracles.
 type FS struct {
 	FaultOps   map[string]bool        // kinds of call that may be failed by the explorer (nil = every kind)
+	WriteGate  func(path string) bool // when set: a write to path does not start before it returns true (a slow / stalled disk: the writer waits, nothing fails)
 	Unwritable func(path string) bool // paths whose every write fails with ENOSPC (a full disk: part of the scenario, not a deviation)
 	// NoShortWrites: an injected write fault refuses the whole write (EIO), never stores half of it
 	NoShortWrites bool
@@ -200,7 +202,11 @@ func (fl *File) Write(b []byte) (int, error) {
 		return len(b), nil
 	}
 	f := fl.fs
-	Point(KFS, nil)
+	if f.WriteGate != nil {
+		Point(KFS, func() bool { return f.WriteGate == nil || f.WriteGate(fl.Path) })
+	} else {
+		Point(KFS, nil)
+	}
 	if fl.Closed {
 		f.log(FSCall{Op: "write", Path: fl.Path, Err: "EBADF(closed)", Bytes: len(b), FD: fl.ID, Data: string(b)})
 		return 0, pathErr("write", fl.Path, os.ErrClosed)
@@ -426,12 +432,168 @@ func (f *FS) Chtimes(name string, mtime time.Time) error {
 	return nil
 }
 
-// Fd is a dummy descriptor number.
+// Fd returns the descriptor number of the file: for a file of the in-memory filesystem a number the raw
+// descriptor calls below (SysWrite ...) resolve back to it, until it is closed.
 func (fl *File) Fd() uintptr {
 	if fl.real != nil {
 		return fl.real.Fd()
 	}
-	return 99
+	if fl.special != nil || fl.fs == nil {
+		return 99
+	}
+	return uintptr(vfdBase + fl.ID)
+}
+
+// ---- raw descriptor calls (instrumented sources: syscall.Write & co are rewritten to these) ------------
+//
+// Code that keeps a descriptor number instead of the *os.File still talks to the in-memory filesystem:
+// every call is the corresponding File method (same scheduling points, faults, crash semantics). Numbers
+// that do not belong to an open in-memory file get EBADF - except 1 and 2, which are the captured streams.
+
+const vfdBase = 1000
+
+// SysStdout / SysStderr are where raw writes to descriptors 1 and 2 go (set by the os shim).
+var SysStdout, SysStderr *[]byte
+
+func vfd(fd int) *File {
+	x := cur
+	if x == nil || x.FS == nil {
+		return nil
+	}
+	for fl := range x.FS.Open {
+		if vfdBase+fl.ID == fd && !fl.Closed {
+			return fl
+		}
+	}
+	return nil
+}
+
+func sysErr(err error) error {
+	var pe *fs.PathError
+	if errors.As(err, &pe) {
+		if en, ok := pe.Err.(syscall.Errno); ok {
+			return en
+		}
+		if errors.Is(pe.Err, os.ErrClosed) {
+			return syscall.EBADF
+		}
+		return pe.Err
+	}
+	return err
+}
+
+func SysWrite(fd int, p []byte) (int, error) {
+	if cur == nil {
+		return syscall.Write(fd, p)
+	}
+	if fd == 1 && SysStdout != nil {
+		*SysStdout = append(*SysStdout, p...)
+		return len(p), nil
+	}
+	if fd == 2 && SysStderr != nil {
+		*SysStderr = append(*SysStderr, p...)
+		return len(p), nil
+	}
+	fl := vfd(fd)
+	if fl == nil {
+		Point(KFS, nil)
+		return -1, syscall.EBADF
+	}
+	n, err := fl.Write(p)
+	if err != nil && n == 0 {
+		n = -1
+	}
+	return n, sysErr(err)
+}
+
+func SysPwrite(fd int, p []byte, off int64) (int, error) {
+	if cur == nil {
+		return syscall.Pwrite(fd, p, off)
+	}
+	fl := vfd(fd)
+	if fl == nil {
+		return -1, syscall.EBADF
+	}
+	save := fl.pos
+	fl.pos = int(off)
+	n, err := fl.Write(p)
+	fl.pos = save
+	return n, sysErr(err)
+}
+
+func SysRead(fd int, p []byte) (int, error) {
+	if cur == nil {
+		return syscall.Read(fd, p)
+	}
+	fl := vfd(fd)
+	if fl == nil {
+		return -1, syscall.EBADF
+	}
+	n, err := fl.Read(p)
+	if err == io.EOF {
+		return 0, nil
+	}
+	return n, sysErr(err)
+}
+
+func SysClose(fd int) error {
+	if cur == nil {
+		return syscall.Close(fd)
+	}
+	fl := vfd(fd)
+	if fl == nil {
+		Point(KFS, nil)
+		return syscall.EBADF
+	}
+	return sysErr(fl.Close())
+}
+
+func SysFsync(fd int) error {
+	if cur == nil {
+		return syscall.Fsync(fd)
+	}
+	fl := vfd(fd)
+	if fl == nil {
+		Point(KFS, nil)
+		return syscall.EBADF
+	}
+	return sysErr(fl.Sync())
+}
+
+func SysFdatasync(fd int) error { return SysFsync(fd) }
+
+func SysSeek(fd int, off int64, whence int) (int64, error) {
+	if cur == nil {
+		return syscall.Seek(fd, off, whence)
+	}
+	fl := vfd(fd)
+	if fl == nil {
+		return -1, syscall.EBADF
+	}
+	n, err := fl.Seek(off, whence)
+	return n, sysErr(err)
+}
+
+func SysFtruncate(fd int, length int64) error {
+	if cur == nil {
+		return syscall.Ftruncate(fd, length)
+	}
+	fl := vfd(fd)
+	if fl == nil {
+		return syscall.EBADF
+	}
+	return sysErr(fl.Truncate(length))
+}
+
+func SysOpen(path string, mode int, perm uint32) (int, error) {
+	if cur == nil {
+		return syscall.Open(path, mode, perm)
+	}
+	fl, err := cur.FS.OpenFile(path, mode&^syscall.O_CLOEXEC, os.FileMode(perm))
+	if err != nil {
+		return -1, sysErr(err)
+	}
+	return int(fl.Fd()), nil
 }
 
 // WrapReal wraps a real *os.File (pass-through outside the scheduler).
